@@ -244,6 +244,9 @@ struct Got {
     std::string error;
 };
 
+/// signatures are single tokens (they key known_findings.json and are parsed from REPLAY lines)
+static std::string token(std::string s) { for (auto &ch : s) if (ch == ' ' || ch == '/' || ch == '(' || ch == ')') ch = '-'; return s; }
+
 static std::string toStd(const SBuf &s) { return std::string(s.rawContent(), s.length()); }
 
 static Got squidParse(const std::string &bytes)
@@ -579,8 +582,8 @@ static vp::Verdict check(const Case &c, vp::Ctx &ctx)
             return vp::fail("v1:tlvs-invented");
         }
     } else if (ref.kind == Reject) {
-        if (full.kind == Got::Header) return vp::fail(fam + ":malformed-header-accepted:" + ref.why, c.note);
-        if (full.kind == Got::More) return vp::fail(fam + ":malformed-header-waits-for-more:" + ref.why, c.note);
+        if (full.kind == Got::Header) return vp::fail(fam + ":malformed-header-accepted:" + token(ref.why), c.note);
+        if (full.kind == Got::More) return vp::fail(fam + ":malformed-header-waits-for-more:" + token(ref.why), c.note);
     } else if (ref.kind == NeedMore) {
         if (full.kind == Got::Header) return vp::fail(fam + ":header-from-incomplete-input", c.note);
     }
